@@ -12,7 +12,7 @@ import math, os, re, shutil, subprocess, sys
 from fractions import Fraction
 import vlib
 
-EPS = {"f": 2.0 ** -24, "fa": 2.0 ** -24, "d": 2.0 ** -53}
+EPS = {"f": 2.0 ** -24, "fa": 2.0 ** -24, "d": 2.0 ** -53, "dd": 2.0 ** -53}
 C_TOL = 64.0
 GUARD_C = 64.0      # a branch guard g ? t is "marginal" when |g - t| <= GUARD_C * eps * max(1, sum |terms of g|)
 SLERP_THR = 0.9995  # the double literal in slerp()
@@ -469,6 +469,69 @@ def gen_unit_quat(r, dominant=None):
         if n > 0.3: return [x / n for x in q]
 
 
+def special_matrix(r, n, family):
+    """matrices sitting on plausible fast-path guards: det exactly +-1 without being orthogonal, and exact orthogonal ones"""
+    I = ident(n)
+    def shear():
+        M = [list(c) for c in I]
+        for _ in range(r.randint(1, 3)):
+            i, j = r.sample(range(n), 2); c = float(r.choice([-2, -1, 1, 2]))
+            E = [list(col) for col in I]; E[j][i] = c          # column j gets c in row i:  I + c e_i e_j^T
+            M = mm(M, E)
+        return M
+    def scale2():
+        e = r.choice([[1, -1, 0], [2, -2, 0], [1, 1, -2], [2, -1, -1], [3, -3, 0]][: (5 if n == 3 else 2)])[:n]
+        if n == 2: e = r.choice([[1, -1], [2, -2], [3, -3]])
+        e = r.sample(e, n)
+        return [[(2.0 ** e[i] if i == j else 0.0) for i in range(n)] for j in range(n)]
+    def sperm(detsign=None):
+        while True:
+            pi = r.sample(range(n), n); sg = [r.choice([-1.0, 1.0]) for _ in range(n)]
+            M = [[(sg[j] if i == pi[j] else 0.0) for i in range(n)] for j in range(n)]
+            if detsign is None or det(M) == detsign: return M
+    if family == "shear": M = shear()
+    elif family == "scale_pow2": M = scale2()
+    elif family == "rot90_x_shear": M = mm(sperm(1.0), shear())
+    elif family == "scale_x_shear": M = mm(scale2(), shear())
+    elif family == "neg_unimodular": M = mm(sperm(-1.0), shear())
+    elif family == "signed_permutation_det+1": M = sperm(1.0)
+    elif family == "signed_permutation_det-1": M = sperm(-1.0)
+    else: raise ValueError(family)
+    return M
+SPECIAL_FAMILIES = ("shear", "scale_pow2", "rot90_x_shear", "scale_x_shear", "neg_unimodular", "signed_permutation_det+1", "signed_permutation_det-1")
+
+
+def special_cases(r, reps):
+    C = []
+    for _ in range(reps):
+        for fam in SPECIAL_FAMILIES:
+            for n in (2, 3):
+                for _try in range(20):
+                    M = special_matrix(r, n, fam)
+                    if cond(M) <= 64: break
+                else: continue
+                A = flat(M); gm = gen_int_matrix
+                if n == 2:
+                    C.append(("l2", A + gm(r, 2) + gen_vec(r, 2, True), True))
+                    C.append(("ol2", gm(r, 2) + A, True))                    # a / b, a /= b invert b
+                    C.append(("a2", A + gen_vec(r, 2, True) + gm(r, 2) + gen_vec(r, 2, True), True))
+                else:
+                    C.append(("l3", A + gm(r, 3) + gen_vec(r, 3, True), True))
+                    C.append(("ol3", gm(r, 3) + A, True))
+                    C.append(("a3", A + gen_vec(r, 3, True) + gm(r, 3) + gen_vec(r, 3, True) + gen_vec(r, 3, True), True))
+                    C.append(("oa3", gm(r, 3) + gen_vec(r, 3, True) + A + gen_vec(r, 3, True) + [float(r.choice([-3, -2, 2, 3]))], True))
+    return C
+
+
+def matrix_class(M):
+    d = det(M); n = len(M)
+    orth = flat(mm(tr(M), M)) == flat(ident(n))
+    if orth: return "orthogonal, det %+d" % int(d)
+    if d == 1.0: return "det exactly +1, not orthogonal"
+    if d == -1.0: return "det exactly -1, not orthogonal"
+    return "general"
+
+
 def guard_cases(r):
     """inputs ON and just either side of every degeneracy guard / special-case branch, in both signs"""
     C = []
@@ -595,6 +658,7 @@ def make_cases(ctx):
         t = r.choice([0.0, 1.0, 0.5, 0.25]) if i % 7 == 0 else grid(r, 0, 1, 256)
         cases.append(("sl", [t] + a + b, False))
     cases += guard_cases(r)
+    cases += special_cases(r, ctx.pick(3, 20))
     for _ in range(ctx.pick(100, 1000)):
         N = unit([r.gauss(0, 1) for _ in range(3)])
         up = unit([r.gauss(0, 1) for _ in range(3)])
@@ -609,7 +673,10 @@ def make_cases(ctx):
 
 KINDS = {"f": {"ol2", "oa2", "ol3", "oa3", "oq", "ocv", "o2", "l2", "r2", "a2", "l3", "a3", "rot", "frm", "look", "q", "qf", "qr", "ypr", "sl"},
          "fa": {"ol3", "oa3", "l3", "a3", "rot", "frm", "look"},
-         "d": {"oq", "o2", "q", "qf", "qr", "ypr", "sl"}}
+         "d": {"oq", "o2", "q", "qf", "qr", "ypr", "sl"},
+         "dd": {"l2", "a2", "ol2", "oa2", "l3", "a3", "rot", "frm", "look", "ol3", "oa3"}}
+FLAVOURS = ("f", "fa", "d", "dd")
+FLAVOUR_NAME = {"f": "float", "fa": "float, padded vec3fa", "d": "double", "dd": "double linear/affine (vec2d, vec3d)"}
 
 
 def parse_out(line, kind):
@@ -737,7 +804,7 @@ def run(ctx):
         return rc, res, err
 
     impl = {}
-    for fl in ("f", "fa", "d"):
+    for fl in FLAVOURS:
         rc, res, err = runall(exe, [fl], lambda c, fl=fl: c[0] in KINDS[fl])
         if rc != 0:
             ctx.violation("harness %s crashed (rc=%d)" % (fl, rc), {"flavour": fl, "stderr_tail": err[-1500:]}, found_input=False)
@@ -750,13 +817,18 @@ def run(ctx):
     # LinearSpace2<vec2d>::orthogonal(): the float model read without rounding to binary32 is the double computation
     mf["d"].update(runall(model, ["d", "d"], lambda c: c[0] == "o2")[1])
     mq["fa"], mf["fa"] = mq["f"], mf["f"]
+    # double linear / affine templates: the rational reading is flavour independent; the machine reading is the generated
+    # (float-instantiation) text evaluated WITHOUT rounding to binary32 on unrounded inputs, i.e. the same formulas in binary64
+    mq["dd"] = mq["f"]
+    mf["dd"] = runall(model, ["d", "D"], lambda c: c[0] in KINDS["dd"])[1]
 
     stats = {"compared_outputs": 0, "bit_exact_vs_machine_reading": 0, "model_mismatch": 0, "oracle_checks": 0, "oracle_fail": 0, "guard_marginal_cases": 0, "model_mismatch_on_guard_marginal_case": 0}
-    branch_cov = {fl: {1: 0, 2: 0, 3: 0, 4: 0} for fl in ("f", "fa", "d")}
+    branch_cov = {fl: {1: 0, 2: 0, 3: 0, 4: 0} for fl in FLAVOURS}
     kinds_hist, worst_ratio = {}, {}
     guard_cov = {}
+    matrix_cov = {}
     viol_seen = set()
-    for fl in ("f", "fa", "d"):
+    for fl in FLAVOURS:
         eps = EPS[fl]
         for i, (kind, args, isint) in enumerate(cases):
             if kind not in KINDS[fl]: continue
@@ -764,7 +836,7 @@ def run(ctx):
             if toks is None:
                 ctx.broken.append("harness %s produced no output for case %s" % (fl, lines[i][:120])); continue
             iv = [float(x) for x in toks]
-            ain = [f32(x) for x in args] if fl != "d" else list(args)
+            ain = [f32(x) for x in args] if fl in ("f", "fa") else list(args)
             kinds_hist[fl + ":" + kind] = kinds_hist.get(fl + ":" + kind, 0) + 1
             ctx.count(1)
             kap = kappa_of(kind, ain)
@@ -773,6 +845,10 @@ def run(ctx):
             if kind == "qf": branch_cov[fl][branch_of(cols(ain[0:9], 3))] += 1
             # 1. independent oracle on the implementation's own outputs
             bad = []
+            inv_arg = {"l2": (0, 2), "l3": (0, 3), "a2": (0, 2), "a3": (0, 3), "ol2": (4, 2), "ol3": (9, 3), "oa3": (12, 3)}.get(kind)
+            if inv_arg:
+                o_, n_ = inv_arg; mc = matrix_class(cols(ain[o_:o_ + n_ * n_], n_))
+                matrix_cov.setdefault(fl, {}).setdefault("%dx%d" % (n_, n_), {}); mcd = matrix_cov[fl]["%dx%d" % (n_, n_)]; mcd[mc] = mcd.get(mc, 0) + 1
             for (gname, bucket) in guard_buckets(kind, ain, iv, eps):
                 guard_cov.setdefault(gname, {}).setdefault(fl, {}); guard_cov[gname][fl][bucket] = guard_cov[gname][fl].get(bucket, 0) + 1
             orc = oracle(kind, ain, iv, eps)
@@ -793,7 +869,7 @@ def run(ctx):
                 sig = (fl, kind, bad[0][0])
                 if sig not in viol_seen and len(viol_seen) < 12:
                     viol_seen.add(sig)
-                    ctx.violation("%s (%s): %s fails: error %.3g > tolerance %.3g" % (kind, {"f": "float", "fa": "float, padded vec3fa", "d": "double"}[fl], bad[0][0], bad[0][1], bad[0][2]),
+                    ctx.violation("%s (%s): %s fails: error %.3g > tolerance %.3g" % (kind, FLAVOUR_NAME[fl], bad[0][0], bad[0][1], bad[0][2]),
                                   {"flavour": fl, "case": lines[i], "harness_args": [fl], "observed": " ".join(toks),
                                    "failed_identities": [{"identity": n, "error": e, "tolerance": t} for (n, e, t) in bad[:6]],
                                    "required": "every listed identity within 64*kappa*eps of the textbook value (kappa = %.3g)" % kap})
@@ -826,6 +902,13 @@ def run(ctx):
         for b, n in branch_cov[fl].items():
             if n == 0:
                 ctx.broken.append("branch %d of the quaternion-from-matrix constructor was not exercised (%s)" % (b, fl))
+    ctx.cov["inverted_matrix_classes"] = matrix_cov
+    for fl in ("f", "fa", "dd"):
+        for dim in (("2x2", "3x3") if fl != "fa" else ("3x3",)):
+            have = matrix_cov.get(fl, {}).get(dim, {})
+            for need in ("det exactly +1, not orthogonal", "det exactly -1, not orthogonal", "orthogonal, det +1", "orthogonal, det -1", "general"):
+                if have.get(need, 0) == 0:
+                    ctx.broken.append("matrix family not exercised: %s %s (%s)" % (dim, need, fl))
     ctx.cov["guards_exercised"] = guard_cov
     for gname, need in GUARDS.items():
         for fl in GUARD_FLAVOURS[gname]:
